@@ -15,7 +15,7 @@ variable {cfg : JointConfig} {c0 : Nat} {h : List Sys}
 def Pending (s : Sys) (v : Nat) (x : Message) : Prop :=
   x ∈ s.net ∨ ∃ st, s.node v = some st ∧ x ∈ st.raft.msgs
 
-theorem ack_back (H : Hyp2 cfg c0 h) {n : Nat} {a b : Sys} (ha : h[n]? = some a)
+theorem ack_back (H : Hyp2w cfg c0 h) {n : Nat} {a b : Sys} (ha : h[n]? = some a)
     (hb : h[n + 1]? = some b) {v T : Nat} (hf : FloorAt a v T) {x : Message} (hack : isAck x)
     (hidx : x.index ≠ 0) (hfrm : x.frm = v) (ht : x.term < T) (hp : Pending b v x) :
     Pending a v x := by
@@ -77,7 +77,7 @@ theorem ack_back (H : Hyp2 cfg c0 h) {n : Nat} {a b : Sys} (ha : h[n]? = some a)
         exact .inr ⟨stv, hv, g⟩
 
 /-- **no late acknowledgements** -/
-theorem ack_fwd (H : Hyp2 cfg c0 h) {v T : Nat} {x : Message} (hack : isAck x)
+theorem ack_fwd (H : Hyp2w cfg c0 h) {v T : Nat} {x : Message} (hack : isAck x)
     (hidx : x.index ≠ 0) (hfrm : x.frm = v) (ht : x.term < T) :
     ∀ (d n : Nat) (a b : Sys), h[n]? = some a → h[n + d]? = some b → FloorAt a v T →
       Pending b v x → Pending a v x := by
